@@ -33,7 +33,7 @@ def _pred_unit(name, spec):
                     return
                 e1, e2 = L.ext(i1), L.ext(i2)
                 path.oblige('post/truthiness', 'post', truthy(val) == spec(C, e1, e2))
-            return env, {}, finish
+            return env, {'globals': __import__('contracts.lib', fromlist=['builtins']).builtins()}, finish
         return axioms, harness
     return make
 
@@ -100,7 +100,7 @@ def _joinmeet_unit(name):
                     # extent = intersection of extents
                     path.oblige('post/member', 'post', val.ident == L.idx(band(e1, e2)))
                     path.oblige('post/extent', 'post', val.fields['_extent'].t == band(e1, e2))
-            return env, {}, finish
+            return env, {'globals': __import__('contracts.lib', fromlist=['builtins']).builtins()}, finish
         return axioms, harness
     return make
 
